@@ -1,4 +1,73 @@
 package main
 
+import (
+	"bytes"
+	"go/ast"
+	"go/printer"
+	"go/token"
+	"strings"
+)
+
+func c10Src(rel string, n ast.Node) string {
+	var b bytes.Buffer
+	_ = printer.Fprint(&b, load(rel).fset, n)
+	return b.String()
+}
+
+// c10Binaries: source text of every binary expression with a comparison operator inside n
+func c10Binaries(rel string, n ast.Node) []string {
+	var res []string
+	ast.Inspect(n, func(x ast.Node) bool {
+		if b, ok := x.(*ast.BinaryExpr); ok && (b.Op == token.EQL || b.Op == token.NEQ) {
+			res = append(res, c10Src(rel, b))
+		}
+		return true
+	})
+	return res
+}
+
+func c10Method(rel, name string) *ast.FuncDecl {
+	for _, d := range load(rel).f.Decls {
+		if fd, ok := d.(*ast.FuncDecl); ok && fd.Name.Name == name {
+			return fd
+		}
+	}
+	fail("%s: func %s not found", rel, name)
+	return nil
+}
+
 func factsC10() {
+	gw := "pkg/converters/gateway/gateway.go"
+	// the finding: the converter never reads the listener protocol
+	n := 0
+	ast.Inspect(load(gw).f, func(x ast.Node) bool {
+		if s, ok := x.(*ast.SelectorExpr); ok && s.Sel.Name == "Protocol" {
+			n++
+		}
+		return true
+	})
+	addInt("c10ProtocolReads", itoa(n), "gateway.go: number of `<expr>.Protocol` selectors (listener protocol is never read)")
+	// which variant of syncTCPRouteGateway: does it compare the listener protocol?
+	chk := false
+	for _, b := range c10Binaries(gw, c10Method(gw, "syncTCPRouteGateway")) {
+		if strings.Contains(b, "listener.Protocol") {
+			chk = true
+		}
+	}
+	addBool("c10TcpProtocolChecked", chk, "gateway.go syncTCPRouteGateway compares `listener.Protocol` (TCPRoute only through TCP/TLS listeners)")
+	la := c10Binaries(gw, c10Method(gw, "checkListenerAllowed"))
+	addBool("c10NilAllowedRoutesRefused", has(la, "listener.AllowedRoutes == nil"),
+		"gateway.go checkListenerAllowed tests `listener.AllowedRoutes == nil` (refuse)")
+	ln := c10Binaries(gw, c10Method(gw, "checkListenerAllowedNamespace"))
+	addBool("c10NilNamespacesRefused", has(ln, "namespaces == nil") && has(ln, "namespaces.From == nil"),
+		"gateway.go checkListenerAllowedNamespace tests `namespaces == nil || namespaces.From == nil` (refuse)")
+	sn := 0
+	for _, fn := range []string{"syncHTTPRouteGateway", "syncTCPRouteGateway"} {
+		for _, b := range c10Binaries(gw, c10Method(gw, fn)) {
+			if b == "*sectionName != listener.Name" {
+				sn++
+			}
+		}
+	}
+	addInt("c10SectionNameCompared", itoa(sn), "gateway.go sync{HTTP,TCP}RouteGateway: `*sectionName != listener.Name` filters")
 }
